@@ -10,7 +10,7 @@ PROP = "C06"
 
 def probe_lines(t, tr_path, cid, maybe_send_rc=False):
     """Generic-context probe: which bounds does the trait *declare* for the returned future, and its Output."""
-    L = ["fn __c12_probe<__X: %s>(x: &__X) {" % tr_path]
+    L = ["fn __c12_probe<__X: %s + 'static>(x: &__X) {" % tr_path]   # (`'static`: methods may carry `where Self: 'static`)
     for mi, m in enumerate(t.methods):
         if not m.is_async:
             continue
